@@ -127,6 +127,31 @@ fn main() {
     for &x in &u32s {
         run(&format!("use_inline_res E PROF {}", bv(x as i128, 32)), move || use_inline_res(x), |v| sres(v, |y| bv(*y as i128, 32)));
     }
+    let ctr = |c: &Counter| format!("⟨{}, {}, {}⟩", bv(c.pos as i128, 16), bv(c.left as i128, 8), bv(c.step as i128, 8));
+    let counters = [
+        Counter { pos: 0, left: 0, step: 3 },
+        Counter { pos: 10, left: 9, step: 3 },
+        Counter { pos: 10, left: 3, step: 3 },
+        Counter { pos: 65000, left: 200, step: 7 },
+        Counter { pos: 600, left: 255, step: 255 },
+        Counter { pos: 33000, left: 0xf3, step: 0 },
+    ];
+    for c in counters {
+        run(&format!("Counter.make (ε := Nat) PROF {} {} {}", bv(c.pos as i128, 16), bv(c.left as i128, 8), bv(c.step as i128, 8)), move || Counter::make(c.pos, c.left, c.step), |v| ok(ctr(v)));
+        run(&format!("Counter.rotated (ε := Nat) PROF {}", ctr(&c)), move || c.rotated(), |v| ok(ctr(v)));
+        run(&format!("Counter.advance (ε := Nat) PROF {}", ctr(&c)), move || { let mut m = c; let r = m.advance(); (r, m) },
+            |(r, m)| ok(format!("({}, {})", match r { Some(x) => format!("some {}", bv(*x as i128, 16)), None => "none".into() }, ctr(m))));
+        for k in [0u8, 1, 2, 9] {
+            run(&format!("Counter.nudge (ε := Nat) PROF {} {}", ctr(&c), bv(k as i128, 8)), move || { let mut m = c; m.nudge(k); m }, |m| ok(format!("((), {})", ctr(m))));
+        }
+        for lim in [0u8, 3, 254] {
+            run(&format!("Counter.checked_step E PROF {} {}", ctr(&c), bv(lim as i128, 8)), move || c.checked_step(lim), |v| sres(v, |y| bv(*y as i128, 8)));
+        }
+    }
+    for &a in &u8s {
+        run(&format!("use_msg_param E PROF {}", bv(a as i128, 8)), move || use_msg_param(a), |v| sres(v, |y| bv(*y as i128, 8)));
+        run(&format!("maybe_counter (ε := Nat) PROF {}", bv(a as i128, 8)), move || maybe_counter(a), |v| ok(match v { Some(c) => format!("some {}", ctr(c)), None => "none".into() }));
+    }
     println!("example : LIMIT = {} := by decide", bv(LIMIT as i128, 32));
     println!("example : SMALL = {} := by decide", bv(SMALL as i128, 8));
     println!("example : Pair.SCALE = {} := by decide", bv(Pair::SCALE as i128, 32));
